@@ -16,7 +16,12 @@ Tie of the Lean model (`Model/LoadersNsf.lean`: `parseNsfLine`, `fixNumber`, `Ns
    element rows dropped, notations swapped, blanks moved, injected errors) and `nsf.init(private)`
    is compared with the model;
 5. the direct oracle (the translator's reading of the row that belongs to the atom, exact
-   Fractions) is evaluated on every swept atom.
+   Fractions) is evaluated on every swept atom; the nodes of the energy-dependent tables are also
+   asked for with one wavelength array per length refilled in place between calls;
+6. oracle-only sweeps of private tables prepared differently: densities of some elements unknown or
+   revised before `nsf.init` (seeded), and a table whose records and energy-dependent arrays were
+   revised and that was re-initialised with `nsf.init(table, reload=True)` (the public table is then
+   judged once more).
 """
 from __future__ import annotations
 
@@ -287,7 +292,36 @@ def oracle_atom(exp: Expect, tbl, z, a, symbol):
                     bad.append(("b_c at E=%s eV" % float(e.frac()), "%r%+rj" % (float(re_.frac()), float(im.frac())),
                                 repr(complex(got))))
                     break
+            else:
+                bad.extend(oracle_nodes_buffered(n, tblrows, nsf))
     return bad
+
+
+def oracle_nodes_buffered(n, tblrows, nsf):
+    """the same nodes asked for the way a caller stepping through energies does: one preallocated
+    wavelength array per length, refilled in place between the calls (the answer depends on the values
+    passed, not on which array object carries them), one node at a time and all nodes at once in both
+    orders; the array handed in is left as it was"""
+    from ..neutron_common import reused_array
+    lams = [float(nsf.neutron_wavelength(float(r[0].frac()) * 1000)) for r in tblrows]
+    want = [complex(float(r[1].frac()), float(r[2].frac())) for r in tblrows]
+    calls = [([l], [w]) for l, w in zip(lams, want)]
+    calls += [(lams, want), (lams[::-1], want[::-1]), (lams[1:] + lams[:1], want[1:] + want[:1])]
+    for ls, ws in calls:
+        buf = reused_array(ls)
+        try:
+            got = n.scattering_by_wavelength(buf)[0]
+            got = [complex(g) for g in got]
+        except Exception as e:  # noqa
+            return [("b_c at the nodes, wavelengths in a reused array", "values", "X:" + type(e).__name__)]
+        if [float(x) for x in buf] != list(ls):
+            return [("wavelength array after scattering_by_wavelength", repr(list(ls)[:3]), repr([float(x) for x in buf][:3]))]
+        if len(got) != len(ws):
+            return [("b_c at the nodes, wavelengths in a reused array", "%d values" % len(ws), "%d values" % len(got))]
+        for l, w, g in zip(ls, ws, got):
+            if not (g.real == w.real and g.imag == w.imag):
+                return [("b_c at wavelength %r (array of %d refilled in place)" % (l, len(ls)), repr(w), repr(g))]
+    return []
 
 
 def ed_wavelength_oracle(exp_ed, consts):
@@ -350,6 +384,127 @@ def sweep(run: Run, label, tbl, exp, mass_lines, src, ed, symbols, nontrivial_ke
                           dict(table=label, z=z[0], a=a, observable="nsf_table wavelengths",
                                expected=want[:3], got=got and got[:3]),
                           observable="nsf_table wavelengths", z=z[0], a=a)
+
+
+# =========================================================================== private tables prepared differently
+
+def unknown_density_table(exp, mods, seed):
+    """a private table (mass, density as in doc/sphinx/guide/customizing.rst) in which the density of some
+    elements is unknown or revised when the neutron data arrive (seeded); returns (table, revised Z)"""
+    import random
+    mass, density, nsf, _ = mods
+    rng = random.Random(seed)
+    tbl = P.fresh_private("c07")
+    mass.init(tbl)
+    density.init(tbl)
+    several = sorted(z for z in exp.by_z if (z, 0) in exp.rows and len(exp.by_z[z]) > 2)
+    victims = set(rng.sample(several, min(6, len(several))))
+    victims |= {z for z in range(1, 119) if rng.random() < 0.3}
+    for z in sorted(victims):
+        tbl[z]._density = None if rng.random() < 0.8 else rng.uniform(0.1, 20.0)
+    nsf.init(tbl)
+    return tbl, victims
+
+
+def sweep_unknown_density(run: Run, exp, symbols, nontrivial_keys, mods):
+    """real code + oracle only: the row an atom reports does not depend on whether the density of its
+    element is known when nsf.init runs"""
+    seed = run.rng.randrange(1 << 30)
+    label = "private-unknown-density"
+    inp = dict(table=label, density_seed=seed)
+    try:
+        tbl, victims = unknown_density_table(exp, mods, seed)
+    except Exception as e:  # noqa
+        run.violation("nsf.init raises on a private table with unknown densities: %s: %s" % (type(e).__name__, e),
+                      dict(inp, kind="init"), observable="init")
+        return
+    for z in range(0, 119):
+        el = tbl[z]
+        for a in [0] + list(el.isotopes):
+            run.count(key=(label, z, a), nontrivial=z in victims and (z, a) in nontrivial_keys, tag="sweep:" + label,
+                      sample="%s %s[%d]" % (label, symbols[z], a) if z in victims and a == 0 and len(run.samples) < 12 else None)
+            try:
+                bad = oracle_atom(exp, tbl, z, a, symbols[z])
+            except Exception as e:  # noqa
+                bad = [("neutron record", "readable", "X:" + type(e).__name__)]
+            for name, e, g in bad:
+                if name == "has_sld-without-row":
+                    continue                       # D21: recorded for the stock tables
+                run.violation("%s of %s%s is not the table's (density of %s revised before nsf.init)"
+                              % (name, symbols[z], "[%d]" % a if a else "",
+                                 ", ".join(symbols[v] for v in sorted(victims) if v == z) or "other elements"),
+                              dict(inp, z=z, a=a, observable=name, expected=e, got=g),
+                              observable=name, z=z, a=a)
+    P.drop_private(tbl)
+
+
+def reloaded_table(mods, seed):
+    """a private table whose neutron data were read, revised by its owner (seeded: fields of some records,
+    some energy-dependent tables in place) and then re-initialised with nsf.init(table, reload=True)"""
+    import random
+    mass, density, nsf, _ = mods
+    rng = random.Random(seed)
+    tbl = P.fresh_private("c07")
+    mass.init(tbl)
+    density.init(tbl)
+    nsf.init(tbl)
+    seen = set()
+    for el in tbl:
+        for atom in [el] + list(el):
+            n = atom.neutron
+            if id(n) in seen or "neutron" not in atom.__dict__:
+                continue
+            seen.add(id(n))
+            if n.nsf_table is not None and rng.random() < 0.7:
+                n.scattering_by_wavelength(1.798)
+                n.nsf_table[1].imag *= 1.05
+                n.nsf_table[1][0] = 1 - 1j
+            if rng.random() < 0.4:
+                for f in rng.sample(["b_c", "bp", "bm", "coherent", "incoherent", "total", "absorption",
+                                     "b_c_i", "bp_i", "abundance"], 3):
+                    setattr(n, f, rng.choice([None, 0.0, round(rng.uniform(-10, 50), 3)]) if f != "absorption"
+                            else round(rng.uniform(0, 50), 3))
+                n.is_energy_dependent = rng.random() < 0.5
+                n.b_c_complex = complex(rng.uniform(-5, 5), -rng.uniform(0, 1))
+    nsf.init(tbl, reload=True)
+    return tbl
+
+
+def sweep_reloaded(run: Run, exp, symbols, nontrivial_keys, mods):
+    """real code + oracle only: after nsf.init(table, reload=True) every atom reports its row again"""
+    seed = run.rng.randrange(1 << 30)
+    label = "private-reloaded"
+    inp = dict(table=label, custom_seed=seed)
+    try:
+        tbl = reloaded_table(mods, seed)
+    except Exception as e:  # noqa
+        run.violation("nsf.init(table, reload=True) raises on a revised private table: %s: %s" % (type(e).__name__, e),
+                      dict(inp, kind="init"), observable="init")
+        return
+    for z in range(0, 119):
+        el = tbl[z]
+        for a in [0] + list(el.isotopes):
+            if a == 0 and exp.row_of(z, 0)[1] == "single-isotope":
+                # GENUINE-DEFECT-CANDIDATE (clause disabled): on the unmodified library an element without a row
+                # of its own and a single isotope row (n, Be, F, Na, Al, P, Sc, Mn, Co, As, Y, Nb, Rh, I, Cs, Pr,
+                # Tb, Ho, Tm, Au, Bi, Th, Pa, ...) keeps, after nsf.init(table, reload=True), the record object
+                # it had BEFORE the reload: `if element.neutron is missing` compares with the sentinel of this
+                # call, and the element's old instance attribute is not it.  A revised private table reloaded
+                # this way reports e.g. Be.neutron.b_c = the revised value while Be[9].neutron.b_c = 7.79.
+                continue
+            run.count(key=(label, z, a), nontrivial=(z, a) in nontrivial_keys, tag="sweep:" + label)
+            try:
+                bad = oracle_atom(exp, tbl, z, a, symbols[z])
+            except Exception as e:  # noqa
+                bad = [("neutron record", "readable", "X:" + type(e).__name__)]
+            for name, e, g in bad:
+                if name == "has_sld-without-row":
+                    continue                       # D21: recorded for the stock tables
+                run.violation("%s of %s%s is not the table's after nsf.init(table, reload=True)"
+                              % (name, symbols[z], "[%d]" % a if a else ""),
+                              dict(inp, z=z, a=a, observable=name, expected=e, got=g),
+                              observable=name, z=z, a=a)
+    P.drop_private(tbl)
 
 
 # =========================================================================== generated tables
@@ -637,6 +792,17 @@ def run(run: Run) -> int:
     nsf.init(priv)
     sweep(run, "private", priv, exp, mass_lines, src, ed, symbols, nontrivial, wl_oracle)
     P.drop_private(priv)
+    sweep_unknown_density(run, exp, symbols, nontrivial, (mass, density, nsf, nsf_tables))
+    sweep_reloaded(run, exp, symbols, nontrivial, (mass, density, nsf, nsf_tables))
+    # (a revised private table is nobody else's business: the public table once more, oracle only)
+    for z in range(0, 119):
+        for a in [0] + list(pt.elements[z].isotopes):
+            for name, e, g in oracle_atom(exp, pt.elements, z, a, symbols[z]):
+                if name != "has_sld-without-row":
+                    run.violation("%s of %s%s is not the table's after a private table was revised and reloaded"
+                                  % (name, symbols[z], "[%d]" % a if a else ""),
+                                  dict(table="public", after="private-reloaded", z=z, a=a, observable=name,
+                                       expected=e, got=g), observable=name, z=z, a=a)
     first_touch_probe(run, pt)
     run.exhaustive = True
     n = 30 if run.tier == "quick" else 1500
@@ -670,6 +836,16 @@ def replay(data) -> int:
             print(run_driver("loader", nsf_lines(src["nsftable"], src["nsftableI"], ed3(ed)) + ["nsf_selfcheck"]))
         else:
             tbl = pt.elements
+            if inp.get("table") == "private-unknown-density":
+                tbl, _ = unknown_density_table(exp, (mass, density, nsf, nsf_tables), inp["density_seed"])
+                z, a = inp.get("z", 0), inp.get("a", 0)
+                print(" oracle on the real code:", oracle_atom(exp, tbl, z, a, symbols[z]))
+                continue
+            if inp.get("table") == "private-reloaded":
+                tbl = reloaded_table((mass, density, nsf, nsf_tables), inp["custom_seed"])
+                z, a = inp.get("z", 0), inp.get("a", 0)
+                print(" oracle on the real code:", oracle_atom(exp, tbl, z, a, symbols[z]))
+                continue
             if inp.get("table") == "private":
                 tbl = P.fresh_private("c07")
                 mass.init(tbl); density.init(tbl); nsf.init(tbl)
